@@ -209,15 +209,15 @@ class C04(Spec):
                         return (f'pause({m}): {cnt} trial(s) of key {key} cancelled but remaining_trials went '
                                 f'{rem[key]} -> {s["rem"][key]}')
                 removed.update(rm)
-                paused, cut = True, True
+                paused, cut, resume_at = True, True, None
             else:
                 if rm:
                     return f'{op} notified "removed" {rm}'
                 if op[0] == 'pause':
                     paused = True
                 elif op[0] == 'resume':
-                    if op[1] is not None and cut:
-                        resume_at = op[1]
+                    if cut:
+                        resume_at = op[1] if op[1] is not None else s['ts']
                     paused, cut = False, False
             rem = s['rem']
             clock = s['ts']
